@@ -16,6 +16,7 @@ mod c17;
 mod c17f;
 mod c17h1;
 pub mod c18;
+mod c18dl;
 mod c18rp;
 mod c19;
 mod c19f;
@@ -75,6 +76,7 @@ pub fn run(engine: &str, toks: Vec<Tok>) -> Vec<Tok> {
         "c16_gone" => c16f::gone(toks),
         "c18_session" => c18::session(toks),
         "c18_rp" => c18rp::run(toks),
+        "c18_dl" => c18dl::run(toks),
         "c12_extract" => c12::extract(toks),
         "c12_peek" => c12::peek(toks),
         "c12_handshake" => c12::handshake(toks),
